@@ -394,6 +394,14 @@ func g7DerivedNames() []BashCase {
 		fn("add", []Param{{"n", TInt}}, []Type{TInt}, set("add_n", bin("+", vr("add_n"), il(1))), ret(bin("+", vr("n"), vr("n_add")))),
 		def("got", call("add", il(1))), pr(vr("got"), vr("add_n"), vr("n_add")),
 	})})
+	cases = append(cases, BashCase{Key: "G7/empty-string-arguments", Prog: SingleFile([]Stmt{
+		fn("tag", []Param{{"prefix", TString}, {"name", TString}, {"suffix", TString}}, []Type{TString}, ret(bin("+", bin("+", bin("+", bin("+", sl("<"), vr("prefix")), sl("|")), vr("name")), bin("+", bin("+", sl("|"), vr("suffix")), sl(">"))))),
+		fn("mixed", []Param{{"a", TString}, {"n", TInt}, {"b", TString}, {"f", TBool}}, nil, pr(framed(vr("a")), vr("n"), framed(vr("b")), vr("f"))),
+		pr(call("tag", sl(""), sl("b"), sl("c")), call("tag", sl("a"), sl(""), sl("c")), call("tag", sl("a"), sl("b"), sl("")), call("tag", sl(""), sl(""), sl("c")), call("tag", sl(""), sl(""), sl(""))),
+		callS("mixed", sl(""), il(1), sl(""), bl(true)), callS("mixed", sl(""), il(0), sl("x"), bl(false)),
+		VarDecl{Names: []string{"e"}, Type: TString}, pr(call("tag", vr("e"), sl("b"), vr("e"))), callS("mixed", vr("e"), il(2), vr("e"), bl(true)),
+		pr(call("tag", sl(" "), sl("  "), sl("	"))),
+	})})
 	cases = append(cases, BashCase{Key: "G7/same-call-twice-in-one-expression", Prog: SingleFile([]Stmt{
 		fn("sq", []Param{{"a", TInt}}, []Type{TInt}, ret(bin("*", vr("a"), vr("a")))),
 		fn("add", []Param{{"a", TInt}, {"b", TInt}}, []Type{TInt}, ret(bin("+", vr("a"), vr("b")))),
